@@ -462,7 +462,13 @@ class Interp:
         if path not in self.statics:
             c = self.P.consts.get(path)
             if c is None or "bytes" not in c:
-                raise Unsupported("static %s has no evaluated bytes" % path)
+                # statics of non-array type (atomics used as detection caches): a zero-initialised cell
+                hf = Frame.__new__(Frame)
+                hf.fn = None
+                hf.locals = [0]
+                hf.id = -1
+                self.statics[path] = hf
+                return Ref(hf, 0, [])
             raw = bytes.fromhex(c["bytes"])
             esz = c.get("esz", 1)
             mm = re.findall(r"(u8|i8|u16|i16|u32|i32|u64|i64|usize|isize|u128|i128|bool)", c["ty"])
